@@ -85,16 +85,39 @@ CodeOK(r, expect, prev) ==
             ELSE IF v # 0 THEN CodeOK(Tail(r), FALSE, 255)
             ELSE n = 1 /\ prev = 255 /\ CodeOK(Tail(r), TRUE, prev)
 
+\* what the READER needs of a code, whatever encoder produced it: it can be parsed to the end, i.e. the
+\* stream does not stop right after a marker (runlength_decode would index past the end)
+RECURSIVE CodeParses(_, _)
+CodeParses(r, expect) ==
+    IF r = <<>> THEN ~expect
+    ELSE LET v == r[1][1]
+             n == r[1][2]
+         IN IF n = 0 THEN CodeParses(Tail(r), expect)
+            ELSE IF expect THEN CodeParses(<<<<v, n - 1>>>> \o Tail(r), FALSE)
+            ELSE IF v # 0 THEN CodeParses(Tail(r), FALSE)
+            ELSE CodeParses(Tail(r), n % 2 = 1)
+
 (* The VISIBILITY lump: int32 cluster count, per cluster two int32 offsets (PVS, PAS) from the    *)
 (* start of the lump, then the coded rows, PVS and PAS of cluster 0, of cluster 1, ...            *)
-\* rows: pvs_0, pas_0, pvs_1, pas_1, ... as run lists; count/offsets/coded/lumplen: what the lump holds
-VisLayoutOK(rows, count, offsets, coded, lumplen) ==
+\* What the format, as the reader interprets it, requires of a VISIBILITY lump holding the rows pvs_0, pas_0,
+\* pvs_1, pas_1, ... (run lists): the count; one offset per row that lies behind the offset table and inside
+\* the lump; and the bytes found AT that offset decode to the row.  Where the blocks lie, in which order,
+\* whether equal rows share one block and how a zero run is split into markers is the writer's business.
+\* at[k]: the bytes of the lump from offsets[k] as far as a decoder consumes them.
+VisLumpOK(rows, count, offsets, at, lumplen) ==
     LET n == Len(rows) \div 2 IN
-    /\ count = n /\ Len(offsets) = 2 * n /\ Len(coded) = 2 * n
-    /\ \A k \in 1..(2 * n) : coded[k] = Rle(rows[k])
-    /\ n > 0 => offsets[1] = 4 + 8 * n
-    /\ \A k \in 2..(2 * n) : offsets[k] = offsets[k - 1] + RLen(coded[k - 1])
-    /\ lumplen = IF n = 0 THEN 4 ELSE offsets[2 * n] + RLen(coded[2 * n])
+    /\ count = n /\ Len(offsets) = 2 * n /\ Len(at) = 2 * n
+    /\ \A k \in 1..(2 * n) : /\ offsets[k] >= 4 + 8 * n /\ offsets[k] + RLen(at[k]) <= lumplen
+                              /\ UnRle(at[k], 0, n) = Canon(rows[k])
+\* the layout the present writer chooses (PVS and PAS of cluster 0, of cluster 1, ... back to back, each row
+\* coded by Rle); it satisfies VisLumpOK (checked by TLC in BspTables_rle.cfg), nothing more is claimed for it
+VisSequential(rows) ==
+    LET n == Len(rows) \div 2
+        coded == [k \in 1..(2 * n) |-> Rle(rows[k])]
+        RECURSIVE Off(_)
+        Off(k) == IF k = 1 THEN 4 + 8 * n ELSE Off(k - 1) + RLen(coded[k - 1])
+    IN [count |-> n, offsets |-> [k \in 1..(2 * n) |-> Off(k)], at |-> coded,
+        lumplen |-> IF n = 0 THEN 4 ELSE Off(2 * n) + RLen(coded[2 * n])]
 
 (* ======================= 2. index builders =================================== *)
 (* A table is a sequence of items; keyOf maps an item to what it is compared by   *)
@@ -128,9 +151,12 @@ FoETailPrefix(tbl, keyOf, items) ==
 
 IsPrefix(a, b) == Len(a) <= Len(b) /\ \A i \in 1..Len(a) : a[i] = b[i]
 \* the laws: indexes handed out earlier stay valid; the index denotes an equal item / sub-list
+\* (whether an item that is already present is found or stored once more, and WHICH of several equal entries
+\* is handed out, changes nothing the reader returns: NoDuplicate is a property of the design's FoI only)
 InsertLaw(tbl, keyOf, x, r) ==
     /\ IsPrefix(tbl, r.tbl)
     /\ r.res \in 0..(Len(r.tbl) - 1) /\ keyOf[r.tbl[r.res + 1]] = keyOf[x]
+NoDuplicate(tbl, keyOf, x, r) ==
     /\ Len(r.tbl) <= Len(tbl) + 1
     /\ (Len(r.tbl) = Len(tbl) + 1) => (\A i \in 1..Len(tbl) : keyOf[tbl[i]] # keyOf[x])
 ExtendLaw(tbl, keyOf, items, r) ==
